@@ -44,9 +44,10 @@ def forced_twice_scenario(viol):
     for j in ("-j3", "-j1"):
         pr = Project()
         try:
-            pr.write("T.do", "echo ran >>T.runs\n: >T.started\nsleep 1.2\nexit 3\n")
+            # T.do fails only after B has announced its own request (bounded wait: at -j1 B cannot run meanwhile)
+            pr.write("T.do", "echo ran >>T.runs\n: >T.started\ni=0; while [ ! -e B.ready ] && [ $i -lt 40 ]; do sleep 0.05; i=$((i+1)); done\nsleep 1.5\nexit 3\n")
             pr.write("A.do", "redo T\necho A\n")
-            pr.write("B.do", "while [ ! -e T.started ] && [ ! -e T.runs ]; do sleep 0.05; done\nsleep 0.2\nredo T\necho B\n")
+            pr.write("B.do", "while [ ! -e T.started ]; do sleep 0.05; done\n: >B.ready\nredo T\necho B\n")
             pr.write("all.do", "redo-ifchange A B\n")
             rc, out, err = pr.run(["redo", j, "all"], timeout=60)
             runs = len((pr.read("T.runs") or b"").split())
